@@ -104,13 +104,7 @@ def parse_vtk_compressed(stream, data):
 
 
 def run(ctx):
-    import genall
-    st = genall.run(["Codec"])
-    for g, s in st.items():
-        ctx.log("c2g", g, s)
-        if s.startswith("FAILED"):
-            ctx.tie_broken("translator group " + g, s)
-    ctx.props()
+    cc.translate_and_prove(ctx, ["Codec"])
     exes = cc.build(ctx, static=True)
     rng = ctx.rng
     t0 = time.time()
@@ -409,7 +403,7 @@ def run(ctx):
     for c in ecases[:: max(1, len(ecases) // 5)][:5]:
         ctx.sample({"case": c["line"][:120]})
     ctx.cov["trusted_base"] = ["tools/c2g translator and clang-14's JSON AST (mitigated by the differential run of this check)",
-                               "zlib compress2/uncompress: contract inflate (deflate l d) = d (Section hypotheses of C06_roundtrip_zlib)",
+                               "zlib compress2/uncompress: contract inflate (deflate l d) = d (Section hypotheses of C06_roundtrip)",
                                "Python's base64/zlib modules as the independent reader of the oracle"]
     ctx.assumptions += ["documented preconditions of sc_io_encode_zlib: output (or in-place input) array owns its memory and has element size 1, level in -1..9",
                         "sizes of objects in memory are below 2^62"]
